@@ -7,6 +7,7 @@ import (
 
 	"golang.org/x/tools/go/ssa"
 
+	"verif/checker/flow"
 	"verif/checker/ir"
 )
 
@@ -361,42 +362,127 @@ func c13CtxFuncs(c *Ctx) {
 
 func c13Filters(c *Ctx) {
 	n := 0
+	// a list filter, by shape: func(context.Context, []*E) []*E with E one of the listed entry types — called through
+	// the named filter type or, in a shared (generic) helper, through a parameter of that shape
+	entryTypes := map[string]string{}
 	for _, tname := range []string{"ToolListFilter", "PromptListFilter", "ResourceListFilter"} {
 		ft := c.P.RootNamed(tname)
 		if ft == nil {
 			c.R.Break("anchor not found: %s", tname)
 			continue
 		}
-		for _, fn := range c.P.LibFns {
-			ir.EachInstr(fn, func(_ *ssa.BasicBlock, _ int, in ssa.Instruction) {
-				call, ok := in.(*ssa.Call)
-				if !ok || call.Call.IsInvoke() || !types.Identical(call.Call.Value.Type(), ft) {
-					return
-				}
-				n++
-				construct := tname + " applied in " + fname(fn)
-				_, ctxIsParam := call.Call.Args[0].(*ssa.Parameter)
-				c.R.Check(ctxIsParam, "R-filter-per-request", construct+": ctx", c.Pos(call.Pos()), "called with the handler's own ctx parameter",
-					sprintf("%s calls the list filter with a context that is not its own ctx parameter", fname(fn)))
-				// the slice handed over is built for this request
-				fresh, why := freshSliceArg(c, call.Call.Args[1])
-				c.R.Check(fresh, "R-filter-per-request", construct+": list", c.Pos(call.Pos()), why,
-					sprintf("%s hands the filter a list that is not built for this request (%s): a filter that edits it in place changes what other callers see", fname(fn), why))
-				// the result is not retained
-				retained := false
-				for _, r := range *call.Referrers() {
-					if st, ok := r.(*ssa.Store); ok {
-						if fa, ok := st.Addr.(*ssa.FieldAddr); ok && !ir.BaseAlloc(fa.X) {
-							retained = true
-						}
-						if _, ok := st.Addr.(*ssa.Global); ok {
-							retained = true
-						}
+		if sig, ok := ft.Underlying().(*types.Signature); ok && sig.Params().Len() == 2 {
+			entryTypes[ir.TypeStr(sig.Params().At(1).Type())] = tname
+		}
+	}
+	filterName := func(t types.Type) string {
+		sig, ok := t.Underlying().(*types.Signature)
+		if !ok || sig.Params().Len() != 2 || sig.Results().Len() != 1 || ir.TypeStr(sig.Params().At(0).Type()) != "context.Context" {
+			return ""
+		}
+		if !types.Identical(sig.Params().At(1).Type(), sig.Results().At(0).Type()) {
+			return ""
+		}
+		return entryTypes[ir.TypeStr(sig.Params().At(1).Type())]
+	}
+	for _, fn := range c.P.LibFns {
+		ir.EachInstr(fn, func(_ *ssa.BasicBlock, _ int, in ssa.Instruction) {
+			call, ok := in.(*ssa.Call)
+			if !ok || call.Call.IsInvoke() {
+				return
+			}
+			if _, static := call.Call.Value.(*ssa.Function); static {
+				return
+			}
+			tname := filterName(call.Call.Value.Type())
+			if tname == "" {
+				return
+			}
+			n++
+			construct := tname + " applied in " + fname(fn)
+			_, ctxIsParam := call.Call.Args[0].(*ssa.Parameter)
+			c.R.Check(ctxIsParam, "R-filter-per-request", construct+": ctx", c.Pos(call.Pos()), "called with the handler's own ctx parameter",
+				sprintf("%s calls the list filter with a context that is not its own ctx parameter", fname(fn)))
+			// the slice handed over is built for this request (in a shared helper: by every caller)
+			fresh, why := freshSliceArg(c, call.Call.Args[1])
+			if p, isParam := call.Call.Args[1].(*ssa.Parameter); isParam && !fresh {
+				idx := -1
+				for i, q := range fn.Params {
+					if q == p {
+						idx = i
 					}
 				}
-				c.R.Check(!retained, "R-filter-per-request", construct+": result", c.Pos(call.Pos()), "the filtered list only flows into this answer", sprintf("%s retains the filter's result beyond the request", fname(fn)))
-			})
-		}
+				callers := 0
+				fresh = true
+				for _, e := range ir.Callers(c.G, fn) {
+					if e.Site == nil || !c.P.IsLib(e.Caller.Func) || idx < 0 || idx >= len(e.Site.Common().Args) {
+						continue
+					}
+					callers++
+					if ok2, why2 := freshSliceArg(c, e.Site.Common().Args[idx]); !ok2 {
+						fresh, why = false, "caller "+fname(e.Caller.Func)+": "+why2
+					}
+				}
+				if callers == 0 {
+					fresh = false
+				} else if fresh {
+					why = "every caller hands in a list built for its request"
+				}
+			}
+			c.R.Check(fresh, "R-filter-per-request", construct+": list", c.Pos(call.Pos()), why,
+				sprintf("%s hands the filter a list that is not built for this request (%s): a filter that edits it in place changes what other callers see", fname(fn), why))
+			// the result is not retained
+			retained := false
+			for _, r := range *call.Referrers() {
+				if st, ok := r.(*ssa.Store); ok {
+					if fa, ok := st.Addr.(*ssa.FieldAddr); ok && !ir.BaseAlloc(fa.X) {
+						retained = true
+					}
+					if _, ok := st.Addr.(*ssa.Global); ok {
+						retained = true
+					}
+				}
+			}
+			c.R.Check(!retained, "R-filter-per-request", construct+": result", c.Pos(call.Pos()), "the filtered list only flows into this answer", sprintf("%s retains the filter's result beyond the request", fname(fn)))
+			// once the filter has run, its verdict is final: the list that was handed to it is not used again (a filter
+			// that hides everything returns nil or an empty list — falling back to the input then shows the caller all)
+			input := call.Call.Args[1]
+			reused := false
+			if input.Referrers() != nil {
+				for _, r := range *input.Referrers() {
+					if r == ssa.Instruction(call) {
+						continue
+					}
+					if phi, ok := r.(*ssa.Phi); ok {
+						for i, e := range phi.Edges {
+							if e == input && i < len(phi.Block().Preds) {
+								pb := phi.Block().Preds[i]
+								if pb == call.Block() || call.Block().Dominates(pb) {
+									reused = true
+								}
+							}
+						}
+						continue
+					}
+					if bin, ok := r.(*ssa.BinOp); ok && (ir.IsNilConst(bin.X) || ir.IsNilConst(bin.Y)) {
+						continue
+					}
+					if cb, ok := r.(*ssa.Call); ok {
+						if b, ok := cb.Call.Value.(*ssa.Builtin); ok && b.Name() == "len" {
+							continue
+						}
+					}
+					if r.Block() != call.Block() && call.Block().Dominates(r.Block()) {
+						reused = true
+					}
+					if r.Block() == call.Block() && flow.Dominates(call, r) {
+						reused = true
+					}
+				}
+			}
+			c.R.Check(!reused, "R-filter-per-request", construct+": verdict final", c.Pos(call.Pos()), "the unfiltered list is not used after the filter ran",
+				sprintf("%s uses the list it handed to the filter again after the filter has run (a fallback for a nil or empty result): a filter that hides every entry from this caller returns exactly that, and the caller is shown the complete list", fname(fn)))
+		})
 	}
 	c.R.Min("R-filter-per-request", 9)
 }
